@@ -420,6 +420,8 @@ ALLOWED_AXIOM_PREFIXES = (
     "Coq.Logic.FunctionalExtensionality.functional_extensionality_dep",
     "proof_irrelevance", "ProofIrrelevance.proof_irrelevance", "Classical_Prop.classic", "classic",
     "JMeq.JMeq_eq", "JMeq_eq", "Eqdep.Eq_rect_eq.eq_rect_eq", "eq_rect_eq",
+    # the standard library's axioms of the classical real numbers (Reals; used through Flocq by Props/C16Sat.v only)
+    "ClassicalDedekindReals.sig_not_dec", "ClassicalDedekindReals.sig_forall_dec",
 )
 
 
@@ -534,13 +536,17 @@ def build_obligations(prop, tier):
                 else:
                     res["broken"].append(t + ":" + n)
         # (4) assumptions of the property theorems: re-run coqc on the Props file (cheap: only `exact`s)
-        if os.path.exists(os.path.join(VERIF, "coq", pfile[:-2] + ".vo")):
-            rc2, out2 = run("coqc -Q . Bits -w none %s" % pfile, cwd=os.path.join(VERIF, "coq"), timeout=900)
+        # (further Props files a property names in ASSUMPTION_FILES are collected the same way)
+        res["assumption_blocks"] = 0
+        for af in [pfile] + [f for f in getattr(prop, "ASSUMPTION_FILES", []) if f != pfile]:
+            if not os.path.exists(os.path.join(VERIF, "coq", af[:-2] + ".vo")):
+                continue
+            rc2, out2 = run("coqc -Q . Bits -w none %s" % af, cwd=os.path.join(VERIF, "coq"), timeout=900)
             if rc2 != 0:
-                res["broken"].append(pfile + ":recheck")
+                res["broken"].append(af + ":recheck")
                 res["log"] += out2
             blocks = parse_assumptions(out2)
-            res["assumption_blocks"] = len(blocks)
+            res["assumption_blocks"] += len(blocks)
             for b in blocks:
                 for ax in b:
                     if ax not in res["axioms"]:
